@@ -1423,147 +1423,308 @@ pub mod ctrlc {
 // rayon (a stub of the contract of `find_any` / `find_first` over an integer range)
 // ===========================================================================
 pub mod rayon {
+    /// A stub of the part of rayon's contract the code under test (or a rewrite of it) is likely
+    /// to use on index ranges, vectors and slices: `into_par_iter` / `par_iter`, the adaptors
+    /// `map`, `filter`, `filter_map`, `with_min_len`, `with_max_len`, and the terminal operations
+    /// `find_any`, `find_first`, `find_map_any`, `find_map_first`, `for_each`, `collect` (into a
+    /// `Vec`, in order), `any`, `all`, `count`. Inside a simulation the items are cut into
+    /// contiguous leaves, one per simulated pool task, with a scheduling point before every item
+    /// (and between evaluating an item and publishing a match); outside it forwards to rayon.
     pub mod prelude {
         use crate::{Ev, current, sim_join, sim_spawn_scoped, yield_point};
-        use ::rayon::prelude::{
-            IntoParallelIterator as RealIntoPar, ParallelIterator as RealPar,
-        };
+        use ::rayon::prelude::{IntoParallelIterator as RealIntoPar, ParallelIterator as RealPar};
         use ::std::ops::Range;
         use ::std::sync::atomic::{AtomicBool, Ordering};
 
-        /// Same method name as rayon's trait, implemented for `Range<u64>` / `Range<usize>`.
+        /// Where the items come from: a length and random access.
+        pub trait Source: Sync + Send {
+            type Item: Send;
+            fn len(&self) -> u64;
+            fn get(&self, i: u64) -> Self::Item;
+        }
+        pub struct RangeSrc(u64, u64);
+        impl Source for RangeSrc {
+            type Item = u64;
+            fn len(&self) -> u64 {
+                self.1.saturating_sub(self.0)
+            }
+            fn get(&self, i: u64) -> u64 {
+                self.0 + i
+            }
+        }
+        pub struct UsizeRangeSrc(usize, usize);
+        impl Source for UsizeRangeSrc {
+            type Item = usize;
+            fn len(&self) -> u64 {
+                self.1.saturating_sub(self.0) as u64
+            }
+            fn get(&self, i: u64) -> usize {
+                self.0 + i as usize
+            }
+        }
+        pub struct VecSrc<T>(::std::sync::Mutex<Vec<Option<T>>>);
+        impl<T: Send> Source for VecSrc<T> {
+            type Item = T;
+            fn len(&self) -> u64 {
+                self.0.lock().unwrap().len() as u64
+            }
+            fn get(&self, i: u64) -> T {
+                self.0.lock().unwrap()[i as usize].take().expect("dstsim rayon stub: item taken twice")
+            }
+        }
+        pub struct SliceSrc<'a, T>(&'a [T]);
+        impl<'a, T: Sync> Source for SliceSrc<'a, T> {
+            type Item = &'a T;
+            fn len(&self) -> u64 {
+                self.0.len() as u64
+            }
+            fn get(&self, i: u64) -> &'a T {
+                &self.0[i as usize]
+            }
+        }
+
+        /// A source with a fused adaptor chain `Item -> Option<R>`.
+        pub struct Par<S, F> {
+            src: S,
+            f: F,
+        }
+        /// Kept under its old name for the event logs and for code that names the type.
+        pub type ParRange = Par<RangeSrc, fn(u64) -> Option<u64>>;
+
+        fn ident<T>(x: T) -> Option<T> {
+            Some(x)
+        }
+
+        /// Same method name as rayon's trait.
         pub trait IntoParallelIterator {
             type Iter;
             fn into_par_iter(self) -> Self::Iter;
         }
-
-        pub struct ParRange {
-            range: Range<u64>,
-        }
-
         impl IntoParallelIterator for Range<u64> {
-            type Iter = ParRange;
-            fn into_par_iter(self) -> ParRange {
-                ParRange { range: self }
+            type Iter = Par<RangeSrc, fn(u64) -> Option<u64>>;
+            fn into_par_iter(self) -> Self::Iter {
+                Par { src: RangeSrc(self.start, self.end.max(self.start)), f: ident::<u64> }
+            }
+        }
+        impl IntoParallelIterator for Range<usize> {
+            type Iter = Par<UsizeRangeSrc, fn(usize) -> Option<usize>>;
+            fn into_par_iter(self) -> Self::Iter {
+                Par { src: UsizeRangeSrc(self.start, self.end.max(self.start)), f: ident::<usize> }
+            }
+        }
+        impl<T: Send> IntoParallelIterator for Vec<T> {
+            type Iter = Par<VecSrc<T>, fn(T) -> Option<T>>;
+            fn into_par_iter(self) -> Self::Iter {
+                Par { src: VecSrc(::std::sync::Mutex::new(self.into_iter().map(Some).collect())), f: ident::<T> }
+            }
+        }
+        /// `par_iter()` on slices and vectors.
+        pub trait IntoParallelRefIterator<'a> {
+            type Iter;
+            fn par_iter(&'a self) -> Self::Iter;
+        }
+        impl<'a, T: Sync + 'a> IntoParallelRefIterator<'a> for [T] {
+            type Iter = Par<SliceSrc<'a, T>, fn(&'a T) -> Option<&'a T>>;
+            fn par_iter(&'a self) -> Self::Iter {
+                Par { src: SliceSrc(self), f: ident::<&'a T> }
+            }
+        }
+        impl<'a, T: Sync + 'a> IntoParallelRefIterator<'a> for Vec<T> {
+            type Iter = Par<SliceSrc<'a, T>, fn(&'a T) -> Option<&'a T>>;
+            fn par_iter(&'a self) -> Self::Iter {
+                Par { src: SliceSrc(&self[..]), f: ident::<&'a T> }
             }
         }
 
-        pub struct ParFilterMap<F> {
-            range: Range<u64>,
-            f: F,
+        /// What a leaf does with the items it is given.
+        enum Mode {
+            /// evaluate every item
+            All,
+            /// stop as soon as any leaf has a hit
+            Any,
+            /// stop when a leaf to the left has a hit
+            First,
         }
 
-        impl ParRange {
-            pub fn filter_map<F, R>(self, f: F) -> ParFilterMap<F>
-            where
-                F: Fn(u64) -> Option<R> + Sync + Send,
-                R: Send,
-            {
-                ParFilterMap { range: self.range, f }
-            }
-            pub fn map<G, R>(self, g: G) -> ParFilterMap<impl Fn(u64) -> Option<R> + Sync + Send>
-            where
-                G: Fn(u64) -> R + Sync + Send,
-                R: Send,
-            {
-                ParFilterMap { range: self.range, f: move |x| Some(g(x)) }
-            }
-        }
-
-        impl<F, R> ParFilterMap<F>
+        impl<S, F, R> Par<S, F>
         where
-            F: Fn(u64) -> Option<R> + Sync + Send,
-            R: Send + 'static,
+            S: Source,
+            F: Fn(S::Item) -> Option<R> + Sync + Send,
+            R: Send,
         {
-            pub fn find_any<P>(self, p: P) -> Option<R>
+            pub fn map<G, R2>(self, g: G) -> Par<S, impl Fn(S::Item) -> Option<R2> + Sync + Send>
+            where
+                G: Fn(R) -> R2 + Sync + Send,
+                R2: Send,
+            {
+                let f = self.f;
+                Par { src: self.src, f: move |x| f(x).map(&g) }
+            }
+            pub fn filter<P>(self, p: P) -> Par<S, impl Fn(S::Item) -> Option<R> + Sync + Send>
             where
                 P: Fn(&R) -> bool + Sync + Send,
             {
-                self.find(p, false)
+                let f = self.f;
+                Par { src: self.src, f: move |x| f(x).filter(|r| p(r)) }
+            }
+            pub fn filter_map<G, R2>(self, g: G) -> Par<S, impl Fn(S::Item) -> Option<R2> + Sync + Send>
+            where
+                G: Fn(R) -> Option<R2> + Sync + Send,
+                R2: Send,
+            {
+                let f = self.f;
+                Par { src: self.src, f: move |x| f(x).and_then(&g) }
+            }
+            pub fn with_min_len(self, _n: usize) -> Self {
+                self
+            }
+            pub fn with_max_len(self, _n: usize) -> Self {
+                self
             }
 
-            pub fn find_first<P>(self, p: P) -> Option<R>
+            /// Runs the pipeline; `hit` decides whether a produced value is a hit (which stops
+            /// the others in the `Any` / `First` modes). Returns the produced values that were
+            /// hits, in source order.
+            fn drive<H>(self, mode: Mode, hit: H) -> Vec<R>
             where
-                P: Fn(&R) -> bool + Sync + Send,
+                H: Fn(&R) -> bool + Sync + Send,
             {
-                self.find(p, true)
-            }
-
-            fn find<P>(self, p: P, first: bool) -> Option<R>
-            where
-                P: Fn(&R) -> bool + Sync + Send,
-            {
+                let len = self.src.len();
                 let Some((sh, me)) = current() else {
-                    let it = RealIntoPar::into_par_iter(self.range).filter_map(self.f);
-                    return if first { it.find_first(p) } else { it.find_any(p) };
+                    // outside a simulation: the real pool, over indices
+                    let (src, f) = (&self.src, &self.f);
+                    let it = RealIntoPar::into_par_iter(0..len).filter_map(|i| f(src.get(i)).filter(|r| hit(r)));
+                    return match mode {
+                        Mode::All => it.collect(),
+                        Mode::Any => it.find_any(|_| true).into_iter().collect(),
+                        Mode::First => it.find_first(|_| true).into_iter().collect(),
+                    };
                 };
-                // Simulated pool: the range is cut into contiguous leaves, one per pool task.
-                // Every leaf checks the shared `found` flag before each item (as rayon's
-                // consumer does), evaluates the item, and on a match raises the flag. The
-                // reduction keeps the left-most leaf result, as rayon's `find_any` reducer
-                // does. (For `find_first` a leaf stops only when a match was found to its left.)
                 let pool = crate::par_tasks();
-                let (start, end) = (self.range.start, self.range.end.max(self.range.start));
-                let len = end - start;
                 let nleaves = (pool as u64).min(len.max(1)) as usize;
                 // cut points drawn by the simulator: uneven leaves, like adaptive splitting
-                let mut cuts: Vec<u64> = vec![start];
+                let mut cuts: Vec<u64> = vec![0];
                 for i in 1..nleaves {
-                    let even = start + len * i as u64 / nleaves as u64;
-                    let jitter = crate::sched_draw(3);
-                    let c = match jitter {
+                    let even = len * i as u64 / nleaves as u64;
+                    let c = match crate::sched_draw(3) {
                         0 => even,
                         1 => even.saturating_sub(1).max(*cuts.last().unwrap()),
-                        _ => (even + 1).min(end),
+                        _ => (even + 1).min(len),
                     };
                     cuts.push(c.max(*cuts.last().unwrap()));
                 }
-                cuts.push(end);
+                cuts.push(len);
                 let found_at: Vec<AtomicBool> = (0..nleaves).map(|_| AtomicBool::new(false)).collect();
-                let f = &self.f;
-                let p = &p;
-                let found_at = &found_at;
-                let leaf = move |li: usize, lo: u64, hi: u64| -> Option<R> {
+                let (src, f, hit, found_at, mode) = (&self.src, &self.f, &hit, &found_at, &mode);
+                let leaf = move |li: usize, lo: u64, hi: u64| -> Vec<R> {
                     let (sh, me) = current().expect("leaf outside simulation");
-                    for x in lo..hi {
-                        yield_point(&sh, me, Ev::User { tag: "par-item", vals: vec![li as i64, x as i64] });
-                        let stop = if first {
-                            found_at[..li].iter().any(|b| b.load(Ordering::SeqCst))
-                        } else {
-                            found_at.iter().any(|b| b.load(Ordering::SeqCst))
+                    let mut out = Vec::new();
+                    for i in lo..hi {
+                        yield_point(&sh, me, Ev::User { tag: "par-item", vals: vec![li as i64, i as i64] });
+                        let stop = match mode {
+                            Mode::All => false,
+                            Mode::Any => found_at.iter().any(|b| b.load(Ordering::SeqCst)),
+                            Mode::First => found_at[..li].iter().any(|b| b.load(Ordering::SeqCst)),
                         };
                         if stop {
-                            return None;
+                            return out;
                         }
-                        if let Some(r) = f(x) {
-                            // the item has been evaluated; publishing the match is a second step
-                            yield_point(&sh, me, Ev::User { tag: "par-hit", vals: vec![li as i64, x as i64] });
-                            if p(&r) {
-                                found_at[li].store(true, Ordering::SeqCst);
-                                return Some(r);
+                        if let Some(r) = f(src.get(i)) {
+                            // the item has been evaluated; publishing the result is a second step
+                            yield_point(&sh, me, Ev::User { tag: "par-hit", vals: vec![li as i64, i as i64] });
+                            if hit(&r) {
+                                out.push(r);
+                                if !matches!(mode, Mode::All) {
+                                    found_at[li].store(true, Ordering::SeqCst);
+                                    return out;
+                                }
                             }
                         }
                     }
-                    None
+                    out
                 };
                 let leaf = &leaf;
-                let mut results: Vec<Option<R>> = Vec::new();
+                // (results travel through a borrowed table, not through the join handles: the
+                // produced values may borrow from the caller's stack)
+                let table: ::std::sync::Mutex<Vec<(usize, Vec<R>)>> = ::std::sync::Mutex::new(Vec::new());
+                let table_ref = &table;
                 ::std::thread::scope(|scope| {
                     let mut joins = Vec::new();
                     for li in 1..nleaves {
                         let (lo, hi) = (cuts[li], cuts[li + 1]);
-                        joins.push(sim_spawn_scoped(scope, &sh, me, move || leaf(li, lo, hi)));
+                        joins.push(sim_spawn_scoped(scope, &sh, me, move || {
+                            let r = leaf(li, lo, hi);
+                            table_ref.lock().unwrap_or_else(|p| p.into_inner()).push((li, r));
+                        }));
                     }
                     let r0 = leaf(0, cuts[0], cuts[1]);
-                    results.push(r0);
+                    table_ref.lock().unwrap_or_else(|p| p.into_inner()).push((0, r0));
                     for j in joins {
-                        match sim_join(j) {
-                            Ok(r) => results.push(r),
-                            Err(e) => ::std::panic::resume_unwind(e),
+                        if let Err(e) = sim_join(j) {
+                            ::std::panic::resume_unwind(e);
                         }
                     }
                 });
-                results.into_iter().flatten().next()
+                let mut results = table.into_inner().unwrap_or_else(|p| p.into_inner());
+                results.sort_by_key(|x| x.0);
+                let mut all: Vec<R> = results.into_iter().flat_map(|x| x.1).collect();
+                if !matches!(mode, Mode::All) {
+                    // the reduction keeps the left-most leaf's hit, as rayon's reducers do
+                    all.truncate(1);
+                }
+                all
+            }
+
+            pub fn find_any<P>(self, p: P) -> Option<R>
+            where
+                P: Fn(&R) -> bool + Sync + Send,
+            {
+                self.drive(Mode::Any, p).into_iter().next()
+            }
+            pub fn find_first<P>(self, p: P) -> Option<R>
+            where
+                P: Fn(&R) -> bool + Sync + Send,
+            {
+                self.drive(Mode::First, p).into_iter().next()
+            }
+            pub fn find_map_any<G, R2>(self, g: G) -> Option<R2>
+            where
+                G: Fn(R) -> Option<R2> + Sync + Send,
+                R2: Send,
+            {
+                self.filter_map(g).drive(Mode::Any, |_| true).into_iter().next()
+            }
+            pub fn find_map_first<G, R2>(self, g: G) -> Option<R2>
+            where
+                G: Fn(R) -> Option<R2> + Sync + Send,
+                R2: Send,
+            {
+                self.filter_map(g).drive(Mode::First, |_| true).into_iter().next()
+            }
+            pub fn for_each<G>(self, g: G)
+            where
+                G: Fn(R) + Sync + Send,
+            {
+                self.map(g).drive(Mode::All, |_| true);
+            }
+            pub fn any<P>(self, p: P) -> bool
+            where
+                P: Fn(R) -> bool + Sync + Send,
+            {
+                !self.map(p).drive(Mode::Any, |b| *b).is_empty()
+            }
+            pub fn all<P>(self, p: P) -> bool
+            where
+                P: Fn(R) -> bool + Sync + Send,
+            {
+                self.map(p).drive(Mode::Any, |b| !*b).is_empty()
+            }
+            pub fn count(self) -> usize {
+                self.drive(Mode::All, |_| true).len()
+            }
+            /// `collect` into a `Vec` (source order), or anything a `Vec` converts into.
+            pub fn collect<C: From<Vec<R>>>(self) -> C {
+                C::from(self.drive(Mode::All, |_| true))
             }
         }
     }
